@@ -46,8 +46,9 @@ fn scenarios(tier: Tier) -> Vec<Scenario> {
 		// a plain restart of a consistent node (whatever Chain::init writes must be crash-safe too)
 		v.push(Scenario { name: "restart", universe: "forks", prelude: vec!["B(m1)", "B(m2)", "B(m3)", "B(m4)", "B(m5)", "B(m6)", "B(f5)", "B(f6)"], op: vec!["init"] });
 		v.push(Scenario { name: "restart-compacted", universe: "long", prelude: vec!["*main", "compact"], op: vec!["init"] });
-		// a child arrives before its parent: the parent's acceptance cascades into the orphan
-		v.push(Scenario { name: "orphan-cascade", universe: "forks", prelude: vec!["B(m1)", "B(m2)", "B(m3)", "B(m4)"], op: vec!["B(m6)", "B(m5)"] });
+		// a child arrives before its parent (headers known: only then is it kept as an orphan): the
+		// parent's acceptance cascades into the orphan
+		v.push(Scenario { name: "orphan-cascade", universe: "forks", prelude: vec!["B(m1)", "B(m2)", "B(m3)", "B(m4)", "HS(..m6)"], op: vec!["B(m6)", "B(m5)"] });
 		// headers of the heavier fork are known first, its bodies arrive afterwards
 		v.push(Scenario { name: "body-sync-reorg", universe: "forks", prelude: vec!["B(m1)", "B(m2)", "B(m3)", "B(m4)", "B(m5)", "HS(..f7)"], op: vec!["B(f5)", "B(f6)"] });
 	}
@@ -588,11 +589,27 @@ impl Engine for C09 {
 		} else {
 			std::fs::create_dir_all(&base).unwrap();
 		}
-		let (_, _, sig) = spawn_child("run", &tf, &base, &s.op, nn);
+		if std::env::var("GV_DEBUG").is_ok() {
+			let c = sc.fresh("dbgcount");
+			uni::copy_dir(&base, &c);
+			let (o, _, _) = spawn_child("run", &tf, &c, &s.op, 0);
+			eprintln!("{}", o);
+		}
+		let (_, _, mut sig) = spawn_child("run", &tf, &base, &s.op, nn);
+		if let Some(n2) = case["second_crash_at"].as_u64() {
+			let (_, _, sig2) = spawn_child("run", &tf, &base, &["init"], n2);
+			if sig2 != Some(libc::SIGABRT) {
+				return Err(format!("second victim did not die at crash point {}: signal {:?}", n2, sig2));
+			}
+			sig = sig2;
+		}
 		let (jo, _, _) = spawn_child("judge", &tf, &base, &s.op, 0);
+		if std::env::var("GV_DEBUG").is_ok() {
+			eprintln!("{}", jo);
+		}
 		let jv = line_json(&jo, "JUDGE ").unwrap_or(json!({"judge": "died"}));
-		let summary = format!("victim signal {:?}; init={} head={} validate={} utxo_mismatches={} redeliver={} validate_after={}", sig, jv["init"], jv["head"], jv["validate"], jv["utxo_mismatches"].as_array().map(|a| a.len()).unwrap_or(0), jv["redeliver"], jv["validate_after"]);
-		if jv["init"] != "Ok" || jv["validate"] != "Ok" || jv["utxo_mismatches"].as_array().map(|a| !a.is_empty()).unwrap_or(true) {
+		let summary = format!("victim signal {:?}; panic={} init={} head={} validate={} utxo_mismatches={} redeliver={} validate_after={}", sig, jv["panic"], jv["init"], jv["head"], jv["validate"], jv["utxo_mismatches"].as_array().map(|a| a.len()).unwrap_or(0), jv["redeliver"], jv["validate_after"]);
+		if jv["init"] != "Ok" || jv.get("panic").is_some() || jv["validate"] != "Ok" || jv["utxo_mismatches"].as_array().map(|a| !a.is_empty()).unwrap_or(true) {
 			Err(summary)
 		} else {
 			Ok(summary)
